@@ -294,6 +294,14 @@ Proof.
   assert (m = m') by nia. subst m'. split; [reflexivity|lia].
 Qed.
 
+Lemma oidx_lt bs k m q : k < length bs -> m < nseg (sh_at K bs k) -> q < osize (sh_at K bs k) ->
+  oidx bs k m q < ototal bs.
+Proof.
+  intros Hk Hm Hq. unfold oidx, ototal, ooff.
+  pose proof (offs_mono (fun t => odim (sh_at K bs t)) k (length bs) Hk) as H. cbv beta in H.
+  pose proof (idx_lt _ _ _ _ Hm Hq). unfold odim in *. lia.
+Qed.
+
 (* shape of the transformation matrix of a shell: nlab rows of ncomp entries *)
 Lemma shell_transform_length (s : shell F) : length (shell_transform K s) = nlab s.
 Proof. unfold shell_transform, sph_transform, nlab. now rewrite !map_length. Qed.
@@ -421,6 +429,61 @@ Proof.
 Qed.
 End Symm.
 
+(* the rectangular assembly, any coordinate types *)
+Section AsymmMixed.
+Variables b1 b2 : list (shell F).
+Hypothesis HB : blocks_shaped blockf b1 b2.
+
+Let Bf := fun i j => pb (nth i (map (prep K) b1) (dummy_p K)) (nth j (map (prep K) b2) (dummy_p K)).
+
+Lemma masymm_Bf_spec i j : i < length b1 -> j < length b2 ->
+  (length (Bf i j) = odim (sh_at K b1 i) /\ Forall (fun row => length row = odim (sh_at K b2 j)) (Bf i j)) /\
+  forall m q m' q', m < nseg (sh_at K b1 i) -> q < osize (sh_at K b1 i) ->
+                    m' < nseg (sh_at K b2 j) -> q' < osize (sh_at K b2 j) ->
+    nth (m' * osize (sh_at K b2 j) + q') (nth (m * osize (sh_at K b1 i) + q) (Bf i j) []) azero
+    = Emix (sh_at K b1 i) (sh_at K b2 j) m q m' q'.
+Proof.
+  intros Hi Hj. unfold Bf. rewrite !nth_prep by assumption.
+  apply pblock_mixed_spec. apply HB; now apply nth_In.
+Qed.
+
+Lemma masymm_is_blockmat :
+  two_asymm_integral K azero aadd ascale blockf b1 b2 None None = two_asymm_blocks (length b1) (length b2) Bf.
+Proof. unfold two_asymm_integral. cbv zeta. rewrite !map_length. reflexivity. Qed.
+
+Lemma two_asymm_mixed_length : 0 < length b2 ->
+  length (two_asymm_integral K azero aadd ascale blockf b1 b2 None None) = ototal K b1.
+Proof.
+  intros Hn. rewrite masymm_is_blockmat.
+  apply (blockmat_length (length b1) (length b2) Bf (fun t => odim (sh_at K b1 t)) (fun t => odim (sh_at K b2 t)));
+    [exact (fun i j Hi Hj => proj1 (masymm_Bf_spec i j Hi Hj)) | exact Hn].
+Qed.
+
+Lemma two_asymm_mixed_row_length i m q :
+  i < length b1 -> 0 < length b2 -> m < nseg (sh_at K b1 i) -> q < osize (sh_at K b1 i) ->
+  length (nth (oidx K b1 i m q) (two_asymm_integral K azero aadd ascale blockf b1 b2 None None) []) = ototal K b2.
+Proof.
+  intros Hi Hn Hm Hq. rewrite masymm_is_blockmat.
+  apply (blockmat_row_length (length b1) (length b2) Bf (fun t => odim (sh_at K b1 t)) (fun t => odim (sh_at K b2 t)));
+    [exact (fun i j Hi Hj => proj1 (masymm_Bf_spec i j Hi Hj)) | exact Hn | exact Hi | now apply idx_lt].
+Qed.
+
+Theorem two_asymm_mixed_entry i j m q m' q' :
+  i < length b1 -> j < length b2 ->
+  m < nseg (sh_at K b1 i) -> q < osize (sh_at K b1 i) -> m' < nseg (sh_at K b2 j) -> q' < osize (sh_at K b2 j) ->
+  nth (oidx K b2 j m' q') (nth (oidx K b1 i m q)
+      (two_asymm_integral K azero aadd ascale blockf b1 b2 None None) []) azero
+  = Emix (sh_at K b1 i) (sh_at K b2 j) m q m' q'.
+Proof.
+  intros Hi Hj Hm Hq Hm' Hq'. rewrite masymm_is_blockmat.
+  unfold oidx, ooff.
+  rewrite (blockmat_entry (length b1) (length b2) Bf (fun t => odim (sh_at K b1 t)) (fun t => odim (sh_at K b2 t))
+             (fun i j Hi Hj => proj1 (masymm_Bf_spec i j Hi Hj)) ltac:(lia) azero i j _ _ Hi Hj
+             (idx_lt _ _ _ _ Hm Hq) (idx_lt _ _ _ _ Hm' Hq')).
+  now apply (proj2 (masymm_Bf_spec i j Hi Hj)).
+Qed.
+End AsymmMixed.
+
 (* the conjugating assembly (Model/OneBody.two_symm_integral_h), any coordinate types *)
 Section SymmH.
 Variable bs : list (shell F).
@@ -496,3 +559,86 @@ Proof.
 Qed.
 End SymmH.
 End MixedAssembled.
+
+(* ------------------------------------------------------------------ *)
+(* asymmetric assembly = off-diagonal block of the union, any types    *)
+(* ------------------------------------------------------------------ *)
+Section OffDiagMixed.
+Context {F : Type} (K : Fops F).
+Context {A : Type} (azero : A) (aadd : A -> A -> A) (ascale : F -> A -> A).
+Variable blockf : shell F -> shell F -> list (list (list (list A))).
+Variables b1 b2 : list (shell F).
+Hypothesis C1 : seg_basis b1.
+Hypothesis C2 : seg_basis b2.
+Hypothesis HB : blocks_shaped blockf (b1 ++ b2) (b1 ++ b2).
+Hypothesis Hn2 : 0 < length b2.
+
+Let n1 := length b1.
+
+Lemma msh_at_app_l t : t < n1 -> sh_at K (b1 ++ b2) t = sh_at K b1 t.
+Proof. intros H. unfold sh_at. now rewrite app_nth1. Qed.
+Lemma msh_at_app_r t : sh_at K (b1 ++ b2) (n1 + t) = sh_at K b2 t.
+Proof. unfold sh_at. rewrite app_nth2 by (unfold n1; lia). f_equal. unfold n1. lia. Qed.
+
+Lemma ooff_app_l k : k <= n1 -> ooff K (b1 ++ b2) k = ooff K b1 k.
+Proof. intros H. unfold ooff. apply offs_ext. intros t Ht. rewrite msh_at_app_l by lia. reflexivity. Qed.
+Lemma ooff_app_r k : ooff K (b1 ++ b2) (n1 + k) = ototal K b1 + ooff K b2 k.
+Proof.
+  unfold ooff at 1. rewrite offs_add. f_equal.
+  - apply (ooff_app_l n1). lia.
+  - apply offs_ext. intros t _. now rewrite msh_at_app_r.
+Qed.
+Lemma ototal_app : ototal K (b1 ++ b2) = ototal K b1 + ototal K b2.
+Proof. unfold ototal at 1. rewrite app_length. apply ooff_app_r. Qed.
+
+Lemma oidx_app_l i m c : i < n1 -> oidx K (b1 ++ b2) i m c = oidx K b1 i m c.
+Proof. intros H. unfold oidx. rewrite ooff_app_l, msh_at_app_l by lia. reflexivity. Qed.
+Lemma oidx_app_r j m c : oidx K (b1 ++ b2) (n1 + j) m c = ototal K b1 + oidx K b2 j m c.
+Proof. unfold oidx. rewrite ooff_app_r, msh_at_app_r. lia. Qed.
+
+Lemma seg_basis_app : seg_basis (b1 ++ b2).
+Proof. intros s Hs. apply in_app_or in Hs. destruct Hs; [now apply C1 | now apply C2]. Qed.
+
+Lemma mblocks_shaped_12 : blocks_shaped blockf b1 b2.
+Proof. intros sa sb Ha Hb. apply HB; apply in_or_app; auto. Qed.
+
+(* The rectangular assembly of (b1, b2) is rows [0, |b1|) x columns [|b1|, |b1|+|b2|) of the square
+   assembly of the union b1 ++ b2 (|b| = ototal b, the number of basis functions of b). *)
+Theorem asymm_is_offdiag_block_mixed :
+  two_asymm_integral K azero aadd ascale blockf b1 b2 None None
+  = map (skipn (ototal K b1)) (firstn (ototal K b1) (two_symm_integral K azero aadd ascale blockf (b1 ++ b2) None)).
+Proof.
+  set (U := two_symm_integral K azero aadd ascale blockf (b1 ++ b2) None).
+  assert (Hpos : 0 < length (b1 ++ b2)) by (rewrite app_length; lia).
+  destruct (two_symm_mixed_shape K azero aadd ascale blockf (b1 ++ b2) seg_basis_app HB Hpos) as [SL SR].
+  fold U in SL, SR. rewrite ototal_app in SL, SR.
+  assert (HU : length U = ototal K b1 + ototal K b2) by exact SL.
+  assert (Hrow : forall i m c, i < n1 -> m < nseg (sh_at K b1 i) -> c < osize (sh_at K b1 i) ->
+            length (nth (oidx K b1 i m c) U []) = ototal K b1 + ototal K b2).
+  { intros i m c Hi Hm Hc. apply SR.
+    pose proof (oidx_lt K b1 i m c Hi Hm Hc). lia. }
+  apply (matrix_ext azero _ _ (ototal K b1) (ototal K b2)).
+  - exact (two_asymm_mixed_length K azero aadd ascale blockf b1 b2 mblocks_shaped_12 Hn2).
+  - rewrite map_length, firstn_length, HU. lia.
+  - intros a Ha. destruct (oidx_surj K b1 a Ha) as (i & m & c & Hi & Hm & Hc & ->). split.
+    + exact (two_asymm_mixed_row_length K azero aadd ascale blockf b1 b2 mblocks_shaped_12 i m c Hi Hn2 Hm Hc).
+    + rewrite (nth_map_d _ _ _ []) by (rewrite firstn_length, HU; lia).
+      rewrite nth_firstn_lt by exact Ha. rewrite skipn_length, Hrow by assumption. lia.
+  - intros a b Ha Hb.
+    destruct (oidx_surj K b1 a Ha) as (i & m & c & Hi & Hm & Hc & ->).
+    destruct (oidx_surj K b2 b Hb) as (j & m' & c' & Hj & Hm' & Hc' & ->).
+    rewrite (two_asymm_mixed_entry K azero aadd ascale blockf b1 b2 mblocks_shaped_12) by assumption.
+    rewrite (nth_map_d _ _ _ []) by (rewrite firstn_length, HU; lia).
+    rewrite nth_firstn_lt by exact Ha. rewrite nth_skipn_add.
+    rewrite <- oidx_app_r, <- (oidx_app_l i m c) by exact Hi. unfold U.
+    assert (Hij : n1 + j < length (b1 ++ b2)) by (rewrite app_length; unfold n1; lia).
+    assert (Hi' : i < length (b1 ++ b2)) by (rewrite app_length; lia).
+    rewrite (two_symm_mixed_entry K azero aadd ascale blockf (b1 ++ b2) seg_basis_app HB i (n1 + j) m c m' c' Hi' Hij).
+    + destruct (Nat.leb_spec i (n1 + j)) as [_|Hlt]; [|unfold n1 in *; lia].
+      rewrite msh_at_app_r, (msh_at_app_l i) by exact Hi. reflexivity.
+    + now rewrite msh_at_app_l.
+    + now rewrite msh_at_app_l.
+    + now rewrite msh_at_app_r.
+    + now rewrite msh_at_app_r.
+Qed.
+End OffDiagMixed.
